@@ -84,7 +84,7 @@ structure GenCfg where
   setNilLeafPtrPanics : Bool := true
   /-- `true` (original emitter): Loop on a root *map* type returns at once for the empty path
       (only root slices are exempted from `if len(path) == 0 { return }`). -/
-  loopRootMapSkipped : Bool := true
+  loopRootMapSkipped : Bool := false   -- repaired in /repo (fix: Loop over a root map type …)
   /-- `true` (original emitter): a typed-nil root (`(*T)(nil)`, a `**T` whose target is nil, a nil `**T`)
       is dereferenced by every method; DeepEqual tests typed-nil `*T` roots itself (`lx == nil`) but
       dereferences a nil `**T` in its header (`lx, leq = *lp, true`). -/
@@ -101,7 +101,7 @@ deriving Repr, Inhabited
 /-- The configuration that mirrors the tree as it is (flags flip when a `fix:` commit lands). -/
 def GenCfg.repo : GenCfg := {}
 /-- The tree as it was at the pinned commit (1c76ae3), before the `fix:` commits in /repo. -/
-def GenCfg.original : GenCfg := { GenCfg.repo with strAppendsOld := true, negIndexPanics := true }
+def GenCfg.original : GenCfg := { GenCfg.repo with strAppendsOld := true, negIndexPanics := true, loopRootMapSkipped := true }
 /-- Every listed defect repaired: the configuration the property theorems are proved for. -/
 def GenCfg.fixed : GenCfg where
   fallThroughAlways := false
